@@ -103,12 +103,72 @@ def _rlock_factory(*a, **k):
     return _real_RLock(*a, **k)
 
 
+HOT_LINES = {}  # filename -> set of line numbers that write state reachable from several tasks
+
+_MUTATORS = {"append", "extend", "insert", "pop", "popitem", "clear", "update", "setdefault", "remove", "add", "discard", "sort", "reverse", "fill", "put", "resize"}
+
+
+def scan_hot_lines(prefix: str):
+    """AST scan of the acryo sources: statements outside __init__ that assign to (or call a mutating
+    method on) `self.<attr>` / `cls.<attr>` / a module global.  These are the places where a
+    pre-emption is most likely to expose a race, so the simulator pre-empts there more often
+    (nothing else is assumed about them)."""
+    import ast
+
+    hot = {}
+    for root, _dirs, files in os.walk(prefix):
+        for fn in sorted(files):
+            if not fn.endswith(".py"):
+                continue
+            path = os.path.join(root, fn)
+            try:
+                tree = ast.parse(open(path).read())
+            except Exception:
+                continue
+            module_names = {t.id for n in tree.body if isinstance(n, (ast.Assign, ast.AnnAssign))
+                            for t in (n.targets if isinstance(n, ast.Assign) else [n.target]) if isinstance(t, ast.Name)}
+            lines = set()
+
+            def is_shared(node):
+                while isinstance(node, (ast.Subscript, ast.Attribute)):
+                    if isinstance(node, ast.Attribute) and isinstance(node.value, ast.Name) and node.value.id in ("self", "cls"):
+                        return True
+                    node = node.value
+                return isinstance(node, ast.Name) and node.id in module_names and False
+
+            for fdef in ast.walk(tree):
+                if not isinstance(fdef, (ast.FunctionDef, ast.AsyncFunctionDef)) or fdef.name in ("__init__", "__new__"):
+                    continue
+                declared_global = {nm for n in ast.walk(fdef) if isinstance(n, ast.Global) for nm in n.names}
+                for n in ast.walk(fdef):
+                    targets = []
+                    if isinstance(n, ast.Assign):
+                        targets = n.targets
+                    elif isinstance(n, (ast.AugAssign, ast.AnnAssign)):
+                        targets = [n.target]
+                    elif isinstance(n, ast.NamedExpr):
+                        targets = []
+                    elif isinstance(n, ast.Expr) and isinstance(n.value, ast.Call) and isinstance(n.value.func, ast.Attribute):
+                        if n.value.func.attr in _MUTATORS and is_shared(n.value.func.value):
+                            lines.add(n.lineno)
+                    for t in targets:
+                        for tt in (t.elts if isinstance(t, (ast.Tuple, ast.List)) else [t]):
+                            if is_shared(tt) or (isinstance(tt, ast.Name) and tt.id in declared_global):
+                                lines.add(n.lineno)
+                                if getattr(n, "end_lineno", n.lineno) != n.lineno:
+                                    lines.add(n.end_lineno)
+            if lines:
+                hot[path] = lines
+    return hot
+
+
 def install(acryo_prefix: str):
     """Called once in the zygote *before* acryo is imported."""
-    global ACRYO_PREFIX
+    global ACRYO_PREFIX, HOT_LINES
     ACRYO_PREFIX = acryo_prefix.rstrip("/") + "/"
     threading.Lock = _lock_factory
     threading.RLock = _rlock_factory
+    HOT_LINES = scan_hot_lines(ACRYO_PREFIX)
 
 
 def enable_opcode_flag_once():
@@ -199,6 +259,7 @@ class Sim:
         policy="uniform",
         pct_d=2,
         pct_horizon=4000,
+        hot_boost=0.0,
         preempts=None,
         choices=None,
         faults=None,
@@ -215,6 +276,8 @@ class Sim:
         self.preempt_p = 0.0 if mode == "sequential" else preempt_p
         self.policy = policy
         self.pct_d = pct_d
+        self.hot_boost = hot_boost
+        self._last_hot = None
         self.script_preempts = set(map(tuple, preempts or ()))
         self.script_choices = [tuple(c) for c in (choices or ())]
         self.choice_i = 0
@@ -241,7 +304,7 @@ class Sim:
         self.stats = dict(
             gets=0, nested_gets=0, tasks=0, events=0, switches=0, max_inflight=0,
             lock_blocks=0, cache_clears=0, cache_clears_inflight=0, dup_exec=0,
-            cache_get_overlap=0, resumes=0,
+            cache_get_overlap=0, resumes=0, hot_events=0,
         )
         self.sites = set()
         self.dup_mismatch = None
@@ -265,7 +328,7 @@ class Sim:
             frame.f_trace_opcodes = True
         elif g == "opcode-some":
             h = (hash_str(code.co_filename[len(ACRYO_PREFIX):] + ":" + code.co_name) ^ self.opcode_salt) % 10
-            if h < 4:
+            if h < 4 or code.co_filename in HOT_LINES:
                 frame.f_trace_opcodes = True
         return self._local_trace
 
@@ -278,7 +341,15 @@ class Sim:
                 if self.mode == "trace":
                     do = (w.get_no, w.task_ord, w.k) in self.script_preempts
                 else:
-                    do = self.preempt_p > 0 and self.rng.random() < self.preempt_p
+                    p = self.preempt_p
+                    if p > 0 and self.hot_boost:
+                        hl = HOT_LINES.get(frame.f_code.co_filename)
+                        if hl is not None and (frame.f_lineno in hl or self._last_hot == w.idx):
+                            # at (or right after) a statement that writes shared state
+                            self._last_hot = w.idx if frame.f_lineno in hl else None
+                            p = max(p, self.hot_boost)
+                            self.stats["hot_events"] += 1
+                    do = p > 0 and self.rng.random() < p
                     if not do and self.policy == "pct" and self._pct_change and self.stats["events"] >= self._pct_change[0]:
                         # PCT priority change point: demote the running worker and yield
                         self._pct_change.pop(0)
